@@ -475,4 +475,42 @@ def near (tol : Rat) : Shape → Pt → Bool
   | .shift dx dy a, p => near tol a (shiftPt dx dy p)
   | .seg segs a, p => segs.any fun s => near tol a (shiftPt s.1.1 s.1.2 p)
 
+/-! ## a telescope pupil end to end: the Keck pupil (`make_keck_aperture`) -/
+
+/-- axial coordinates `(q, r)` of ring `n` of `make_hexagonal_grid`, in the order the loop appends
+them: top, right top, right bottom, bottom, left bottom, left top -/
+def hexRing (n : Nat) : List (Int × Int) :=
+  let N : Int := n
+  (List.range n).map (fun (k : Nat) => (N - (k : Int), (k : Int))) ++
+  (List.range n).map (fun (k : Nat) => (-(k : Int), N)) ++
+  (List.range n).map (fun (k : Nat) => (-N, N - (k : Int))) ++
+  (List.range n).map (fun (k : Nat) => (-N + (k : Int), -(k : Int))) ++
+  (List.range n).map (fun (k : Nat) => ((k : Int), -N)) ++
+  (List.range n).map (fun (k : Nat) => (N, -N + (k : Int)))
+
+/-- `q, r` lists of `make_hexagonal_grid(·, rings)`: the centre, then ring 1, 2, … -/
+def hexQR (rings : Nat) : List (Int × Int) :=
+  (0, 0) :: (List.range rings).flatMap fun m => hexRing (m + 1)
+
+/-- segment centres of `make_hexagonal_grid(cd, rings, pointy_top=False)`:
+`x = (r − q)·cd/2`, `y = (q + r)·apothem·2`, stored as `(y, x)`; `ap` is the float `cd·√3/4` -/
+def hexPositions (rings : Nat) (cd ap : Rat) : List Pt :=
+  (hexQR rings).map fun qr =>
+    ((((qr.1 + qr.2 : Int) : Rat)) * ap * 2, (((qr.2 - qr.1 : Int) : Rat)) * cd / 2)
+
+/-- product of the infinite spiders, `spider1(grid) * spider2(grid) * …` (left associated) -/
+def spiderProd (hw : Rat) (s0 : Rat × Rat) (rest : List (Rat × Rat)) : Shape :=
+  rest.foldl (fun acc d => Shape.mul acc (.spiderInf 0 0 d.1 d.2 hw)) (.spiderInf 0 0 s0.1 s0.2 hw)
+
+/-- `make_keck_aperture`: `segmented(grid) * (1 − circular(obscuration)(grid))`, then
+`res *= spider1 * … * spider6`.  `pitch` = segment pitch, `segR, segA, dirs` the hexagonal
+segment (circum-radius, inflated apothem, side directions), `trs` the 37 transmissions. -/
+def keckShape (rings : Nat) (pitch ap segR segA : Rat) (dirs : List (Rat × Rat)) (trs : List Rat)
+    (obsR : Rat) (spiders : List (Rat × Rat)) (hw : Rat) : Shape :=
+  let body := Shape.mul (.seg ((hexPositions rings pitch ap).zip trs) (.regpoly true segR segA dirs 0 0))
+    (.compl (.circle obsR 0 0))
+  match spiders with
+  | [] => body
+  | s0 :: rest => .mul body (spiderProd hw s0 rest)
+
 end HcipyVerif.Aperture
